@@ -37,6 +37,22 @@ CHECKS = {
              "real leaf amounts (non-zero divisors) that base-unit magnitudes multiply/divide, a*b ~ b*a, (a*b)/b ~ a, a//b = floor(a/b).",
         note="floats as exact reals; scale-only units; NRA queries to z3 with 20 s timeout (unknown => exit 2); shims for float()",
         ref="DESIGN.md §4 C04"),
+    "C11": dict(
+        text="FixedArray construction routes, CreateWithQuantity and CreateCopy(values) run with the dimension and the container length as "
+             "UNBOUNDED symbolic integers: z3 proves on every path that an accepted object has len(values)==dimension>=2 and that rejection "
+             "(ValueError) happens exactly when the request would break that. Curve: one SetImage/SetDomain step from an arbitrary curve "
+             "satisfying the invariant (symbolic lengths) - an inductive step covering call sequences of any length. Real-list routes "
+             "(arithmetic, pickling, ChangingIndex, IndexAsScalar) are enumerated for dimension -1..5(7) x length 0..5(7) with symbolic elements.",
+        note="len() shim returns the symbolic length of a stand-in container; int payload leak guarded by a payload check on observables",
+        ref="DESIGN.md §4 C11"),
+    "C12": dict(
+        text="Minimum, maximum and default value go symbolically through the real AddCategory (9 limit configurations), the amounts through the "
+             "real CheckValue / Array scan: z3 proves for ALL reals that an object is accepted exactly when every amount converted to the default "
+             "unit satisfies the limits, that a rejection names a configured limit that some amount really violates, that repeated verdicts agree "
+             "and that every accepted registration has a default unit of the quantity type and a default value within its own limits. In FP mode "
+             "(value unit = default unit) the same is proved over ALL IEEE doubles incl. NaN, infinities and -0 (NaN skipped in flat Arrays).",
+        note="Real mode: floats as exact reals; FP mode: z3 Float64 comparisons, numpy.isnan shimmed; array lengths 0..3 (quick) / 0..4 (thorough)",
+        ref="DESIGN.md §4 C12"),
 }
 
 NOT_APPLICABLE = {
